@@ -50,6 +50,31 @@ int main(int argc, char ** argv)
       err = x.what();
       if (g.is_initialized()) err = "THROWS-BUT-INITIALIZED: " + err;
     }
+    {
+      // the same request on ONE long-lived generator object that went through every earlier request of this shard (reset in
+      // between): the verdict must not depend on what the object did before
+      static bxdecay0::decay0_generator reused;
+      bool acc2 = false;
+      std::string err2;
+      try {
+        reused.reset();
+        reused.set_decay_category(bxdecay0::decay0_generator::DECAY_CATEGORY_DBD);
+        reused.set_decay_isotope(name);
+        reused.set_decay_dbd_level(level);
+        reused.set_decay_dbd_mode((bxdecay0::dbd_mode_type)mode);
+        if (wkind) reused.set_decay_dbd_esum_range(e1, e2);
+        Tape t2(seed, (uint64_t)idx);
+        reused.initialize(t2);
+        acc2 = reused.is_initialized();
+        if (acc2 && nshots > 0) {
+          bxdecay0::event ea;
+          reused.shoot(t2, ea);
+        }
+      } catch (std::exception & x) {
+        err2 = x.what();
+      }
+      if (acc2 != accepted) err = std::string("HISTORY-DEPENDENT-VERDICT: a generator object used before ") + (acc2 ? "accepts" : "rejects (" + err2.substr(0, 80) + ")") + "; fresh object: " + err;
+    }
     if (accepted) {
       for (int i = 0; i < nshots; i++) {
         bxdecay0::event e;
